@@ -1,6 +1,8 @@
 package antelab
 
 import (
+	"time"
+
 	"github.com/pokt-network/pocket-core/crypto"
 	sdk "github.com/pokt-network/pocket-core/types"
 	"github.com/pokt-network/pocket-core/x/auth"
@@ -27,12 +29,19 @@ type Roles struct {
 	MultiIn Multi       // same keys, signatures placed in the wrong order
 	Deep    Multi       // multisig with more keys than TxSigLimit allows
 	AppU    chain.Key   // application that is unstaking (begin-unstake in the setup block)
+	NodeU   chain.Key   // node whose unstaking has COMPLETED: record kept with status Unstaked, output OutU
+	NodeW   chain.Key   // node that is unstaking (status Unstaking), output OutU
+	NodeJ   chain.Key   // staked node that is jailed, output OutU
+	OutU    chain.Key   // recorded output address of NodeU / NodeW / NodeJ (funded)
 	NodeLow chain.Key   // non-custodial node whose operator account holds less than one fee; output = Out2
 	Out2    chain.Key   // output address of NodeLow (funded, balance differs from every other account)
 	Out3    chain.Key   // funded account used as the new output address in output-address edits
 	NewApp  chain.Key   // funded plain account named as the new key of an application transfer
 	Multis  []Multi     // funded multisig accounts of 2, 3 and 4 keys (Multis[0] = Multi)
 }
+
+// UnstakingTime of the generated chains (blocks are one minute apart).
+const UnstakingTime = 40 * time.Minute
 
 const NCStake = 60000000000
 
@@ -56,11 +65,11 @@ func NewChain(o Options) (*Lab, *Roles) {
 	} else {
 		chain.ResetGlobals(o.Features, 2, 1)
 	}
-	w, g := chain.DefaultWorld(o.ChainID, 2, 2, 3, 8)
+	w, g := chain.DefaultWorld(o.ChainID, 2, 5, 3, 9)
 	g.Features = o.Features
 	r := &Roles{W: w, Val: w.Vals[0], Node: w.Servs[0], NodeNC: w.Servs[1], Out: w.Accts[0], App: w.Apps[0], App2: w.Apps[1],
 		Rich: w.Accts[1:4], TwoDen: w.Accts[4], Owner: w.Owner, Fresh: w.Fresh,
-		AppU: w.Apps[2], NodeLow: w.Vals[1], Out2: w.Accts[5], Out3: w.Accts[6], NewApp: w.Accts[7]}
+		NodeU: w.Servs[2], NodeW: w.Servs[3], NodeJ: w.Servs[4], OutU: w.Accts[8], AppU: w.Apps[2], NodeLow: w.Vals[1], Out2: w.Accts[5], Out3: w.Accts[6], NewApp: w.Accts[7]}
 	for i := 0; i < 4; i++ {
 		r.Poor = append(r.Poor, chain.KeyN(3000+uint64(i)))
 	}
@@ -86,6 +95,7 @@ func NewChain(o Options) (*Lab, *Roles) {
 				gs.Nodes.Validators[i].OutputAddress = r.Out.Addr
 			}
 		}
+		gs.Nodes.Params.UnstakingTime = UnstakingTime
 		poor := []int64{0, Fee - 1, Fee, Fee + 1}
 		for i, k := range r.Poor {
 			c := upokt(poor[i])
@@ -131,6 +141,9 @@ func NewChain(o Options) (*Lab, *Roles) {
 	setup = append(setup, chain.SignTx(o.ChainID, r.NodeNC, chain.MsgNodeStake(r.NodeNC, NCStake, []string{chain.ChainHash}, "https://nc.example:443", r.Out.Addr, nil), chain.DefaultFee*(o.FeeMulti+1), 950, ""))
 	// NodeLow: non-custodial (output Out2); afterwards its operator account is drained to half a fee
 	setup = append(setup, chain.SignTx(o.ChainID, r.NodeLow, chain.MsgNodeStake(r.NodeLow, NCStake, []string{chain.ChainHash}, "https://low.example:443", r.Out2.Addr, nil), chain.DefaultFee*(o.FeeMulti+1), 951, ""))
+	for i, k := range []chain.Key{r.NodeU, r.NodeW, r.NodeJ} {
+		setup = append(setup, chain.SignTx(o.ChainID, k, chain.MsgNodeStake(k, NCStake, []string{chain.ChainHash}, "https://u.example:443", r.OutU.Addr, nil), chain.DefaultFee*(o.FeeMulti+1), int64(960+i), ""))
+	}
 	setup = append(setup, chain.SignTx(o.ChainID, r.AppU, chain.MsgAppUnstake(r.AppU.Addr), chain.DefaultFee*(o.FeeMulti+1), 953, ""))
 	l.EmptyBlock()
 	run := func(txs [][]byte) {
@@ -146,6 +159,50 @@ func NewChain(o Options) (*Lab, *Roles) {
 	drainFee := chain.DefaultFee * (o.FeeMulti + o.SendMulti + 1)
 	bal := n.App.VerifAccountKeeper().GetCoins(l.Ctx(), r.NodeLow.Addr).AmountOf(sdk.DefaultStakeDenom).Int64()
 	run([][]byte{chain.SignTx(o.ChainID, r.NodeLow, chain.MsgSend(r.NodeLow.Addr, r.Rich[0].Addr, bal-drainFee-Fee/2), drainFee, 952, "")})
+	// NodeU: a record left behind with status Unstaked.  Under the modern rule set the end-blocker
+	// deletes a node record right after FinishUnstakingValidator (unstakeAllMatureValidators), and genesis
+	// refuses unstaked records; leftovers of this kind come from the pre-NCUST force-unstake path, which
+	// keeps the record of a node outside the validator set.  It is reproduced here the way the keeper
+	// does it: NodeU begins unstaking through a real transaction and, once its status is Unstaking,
+	// FinishUnstakingValidator is applied inside a block (stake returned, status Unstaked, record and output
+	// address kept).  NodeW then begins unstaking (its record stays Unstaking for UnstakingTime).
+	nk := n.App.VerifNodesKeeper()
+	status := func(k chain.Key) (st int, found, jailed bool) {
+		v, ok := nk.GetValidator(l.Ctx(), k.Addr)
+		return int(v.Status), ok, ok && v.Jailed
+	}
+	waitUnstaking := func(k chain.Key) {
+		for i := 0; ; i++ {
+			if st, found, _ := status(k); found && st == int(sdk.Unstaking) {
+				return
+			}
+			if i > 30 {
+				panic("node did not start unstaking")
+			}
+			l.EmptyBlock() // waiting nodes are released at the next session boundary
+		}
+	}
+	run([][]byte{chain.SignTx(o.ChainID, r.NodeU, chain.MsgNodeUnstake(r.NodeU.Addr, r.NodeU.Addr), chain.DefaultFee*(o.FeeMulti+1), 970, "")})
+	waitUnstaking(r.NodeU)
+	l.Begin(nil)
+	if v, ok := nk.GetValidator(l.Ctx(), r.NodeU.Addr); ok {
+		nk.FinishUnstakingValidator(l.Ctx(), v)
+	}
+	l.End()
+	if st, found, _ := status(r.NodeU); !found || st != int(sdk.Unstaked) {
+		panic("NodeU record is not Unstaked")
+	}
+	run([][]byte{chain.SignTx(o.ChainID, r.NodeW, chain.MsgNodeUnstake(r.NodeW.Addr, r.NodeW.Addr), chain.DefaultFee*(o.FeeMulti+1), 971, "")})
+	waitUnstaking(r.NodeW)
+	// NodeJ is jailed by calling the keeper's JailValidator inside a block: the genesis servicers have no
+	// signing info on this chain (so downtime jailing cannot trigger below height 30040) and a
+	// double-sign only slashes; how a node gets jailed is not what C14 is about
+	l.Begin(nil)
+	nk.JailValidator(l.Ctx(), r.NodeJ.Addr)
+	l.End()
+	if _, _, jailed := status(r.NodeJ); !jailed {
+		panic("NodeJ was not jailed")
+	}
 	return l, r
 }
 
